@@ -102,6 +102,8 @@ def has_positive(ast) -> bool:
         return False
     if kind in ("and", "or"):
         return any(has_positive(x) for x in ast[1])
+    if kind == "cds":
+        return has_positive(ast[1])
     return True
 
 
@@ -218,6 +220,7 @@ class RefParser:
         self.toks = tokenise(text)
         self.pos = 0
         self.used_identifiers: set = set()
+        self.extender_identifiers: set = set()
         if not self.toks:
             raise RefSyntaxError("no rules")
         while self.pos < len(self.toks):
@@ -231,6 +234,11 @@ class RefParser:
         unknown = self.used_identifiers - self.signatures
         if unknown:
             raise RefSyntaxError(f"unknown profiles {sorted(unknown)}")
+        unknown = self.extender_identifiers - self.signatures
+        if unknown:
+            err = RefSyntaxError(f"unknown profiles in extenders {sorted(unknown)}")
+            err.only_in_extenders = True
+            raise err
 
     # token helpers with alias substitution ("textual substitution")
     def peek(self) -> Optional[str]:
@@ -327,7 +335,8 @@ class RefParser:
             description = " ".join(words)
         while self.peek() == "EXAMPLE":
             self.pos += 1
-            self.take_identifier()
+            if self.take_identifier() != "NCBI":
+                raise Unspecified("the documentation does not list the valid example databases")
             self.take_identifier()
             self.take(".")
             self.take_int()
@@ -372,6 +381,7 @@ class RefParser:
                 extenders = ["id", self.take_identifier()]
             if not has_positive(extenders):
                 raise RefSyntaxError("no positive requirement in extenders")
+            self.extender_identifiers |= profiles(extenders)
         nxt = self.peek()
         if nxt is not None and nxt not in ("RULE", "DEFINE"):
             raise RefSyntaxError(f"unexpected {nxt} after rule")
